@@ -90,6 +90,10 @@ def dualVal : List GeRow → List Rat → Rat
 def dualOk (n : Nat) (rows : List GeRow) (c y : List Rat) : Bool :=
   y.all (fun q => decide (0 ≤ q)) && (List.range n).all (fun i => comb rows y i == c.getD i 0)
 
+/-- Farkas certificate of infeasibility: non-negative multipliers that combine the rows into `0 · x ≥ (something positive)` -/
+def farkasOk (n : Nat) (rows : List GeRow) (y : List Rat) : Bool :=
+  y.all (fun q => decide (0 ≤ q)) && (List.range n).all (fun i => comb rows y i == 0) && decide (0 < dualVal rows y)
+
 /-- every row satisfied exactly -/
 def feasB (n : Nat) (rows : List GeRow) (x : List Rat) : Bool := rows.all (fun r => r.satB n 0 x)
 
